@@ -14,7 +14,7 @@ impl Filterer for Scripted {
 }
 
 // case: <id> <throttle_ms> <handler_ms> <arrivals: off:id:prio(l|n|h|u):kind(t|e):verdict(p|r|e),…>
-async fn run_case(throttle: u64, handler_ms: u64, arrivals: Vec<(u64, String, Priority, bool, char)>) -> String {
+async fn run_case(throttle: u64, handler_ms: u64, arrivals: Vec<(u64, String, Priority, bool, char)>, changes: Vec<(u64, u64)>) -> String {
     let config = Arc::new(Config::default());
     config.throttle(Duration::from_millis(throttle));
     let seen_by_filter = Arc::new(Mutex::new(vec![]));
@@ -29,6 +29,9 @@ async fn run_case(throttle: u64, handler_ms: u64, arrivals: Vec<(u64, String, Pr
     let (ev_s, ev_r) = async_priority_channel::bounded(64);
     let (er_s, mut er_r) = tokio::sync::mpsc::channel(64);
     let w = tokio::spawn(watchexec::action::worker(config.clone(), er_s, ev_r));
+    // run-time throttle changes (`off:T:ms` items), made from another task like a handler or a client would
+    let t0_tokio = tokio::time::Instant::from_std(t0);
+    let changer = tokio::spawn({ let config = config.clone(); async move { for (off, ms) in changes { tokio::time::sleep_until(t0_tokio + Duration::from_millis(off)).await; config.throttle(Duration::from_millis(ms)); } } });
     let mut sent = vec![];
     for (off, id, prio, empty, _) in &arrivals {
         tokio::time::sleep_until(tokio::time::Instant::from_std(t0 + Duration::from_millis(*off))).await;
@@ -37,7 +40,8 @@ async fn run_case(throttle: u64, handler_ms: u64, arrivals: Vec<(u64, String, Pr
         ev_s.send(ev, *prio).await.unwrap();
         sent.push(format!("{id}@{before}"));
     }
-    tokio::time::sleep(Duration::from_millis(throttle + 150 + handler_ms * 2)).await;
+    let maxthr = changer.await.map(|_| ()).ok().map(|_| config.throttle.get().as_millis() as u64).unwrap_or(throttle).max(throttle);
+    tokio::time::sleep(Duration::from_millis(maxthr + 150 + handler_ms * 2)).await;
     w.abort();
     let mut errs = 0; while er_r.try_recv().is_ok() { errs += 1; }
     let b = batches.lock().unwrap();
@@ -53,11 +57,12 @@ fn main() {
             let mut cur = vec![];
             for line in chunk {
                 let f: Vec<String> = line.split(' ').map(|s| s.to_string()).collect();
-                let arr: Vec<(u64, String, Priority, bool, char)> = f[3].split(',').map(|a| { let x: Vec<&str> = a.split(':').collect();
+                let changes: Vec<(u64, u64)> = f[3].split(',').filter_map(|a| { let x: Vec<&str> = a.split(':').collect(); if x[1] == "T" { Some((x[0].parse().unwrap(), x[2].parse().unwrap())) } else { None } }).collect();
+                let arr: Vec<(u64, String, Priority, bool, char)> = f[3].split(',').filter(|a| a.split(':').nth(1) != Some("T")).map(|a| { let x: Vec<&str> = a.split(':').collect();
                     (x[0].parse().unwrap(), x[1].to_string(), match x[2] { "l" => Priority::Low, "h" => Priority::High, "u" => Priority::Urgent, _ => Priority::Normal }, x[3] == "e", x[4].chars().next().unwrap()) }).collect();
                 let (th, hm) = (f[1].parse().unwrap(), f[2].parse().unwrap());
                 let id = f[0].clone();
-                cur.push(tokio::spawn(async move { format!("{} {}", id, run_case(th, hm, arr).await) }));
+                cur.push(tokio::spawn(async move { format!("{} {}", id, run_case(th, hm, arr, changes).await) }));
             }
             for h in cur { hs.push(h.await.unwrap()); }
         }
